@@ -58,6 +58,34 @@ def trees():
     return [t1, t2, t3, t4, t5]
 
 
+NAME_POOL = [["c1", "k1"], ["c2"], ["d1"], ["a1", "aa"], ["b1", "bb"], ["e1"], ["e2", "ee"], ["get", "g"], ["one", "o1"], ["deep"], ["two"]]
+
+
+def random_trees(rnd, n, depth=3):
+    """random command trees over the name pool of the fixed ones (so that one alphabet serves all)"""
+    level_specs = [g.Seq(), g.Seq(g.Optional(F)), g.Seq(X), g.Seq(g.Optional(F), g.Optional(NN), g.Optional(X)), g.Seq(g.Optional(F), g.Rep(X)),
+                   g.Seq(g.Optional(g.Grp(["-f", "-n"], all_=True)), g.Optional(X)), g.Seq(g.Optional(X), g.Optional(g.Seq(g.End(), g.Rep(X))))]
+    out = []
+    for _ in range(n):
+        nodes = []
+
+        def mk(names, path, d):
+            idx = len(nodes)
+            ast = rnd.choice(level_specs)
+            # an empty spec STRING means "no spec" (C16): the empty spec is written as one blank
+            nodes.append(node(names, path, ast, subs=[], spec=" " if not ast["xs"] else None))
+            if d > 0:
+                pool = list(NAME_POOL)
+                rnd.shuffle(pool)
+                for al in pool[: rnd.choice([0, 1, 2, 3] if d < depth else [1, 2, 3])]:
+                    ci = mk(al, path + " " + al[0], d - 1)
+                    nodes[idx]["subs"].append(ci)
+            return idx
+        mk(["app"], "app", depth)
+        out.append({"version": rnd.choice(["", "", "V"]), "nodes": nodes})
+    return out
+
+
 def tla_input(trs, alphabet, maxlen, policies):
     out = []
     for t in trs:
